@@ -144,13 +144,15 @@ theorem external_outline_sound (t : ExternalTask) (hbyp : t.bypassTightness = fa
             (∀ a ∈ rightSide t ΓR, a.role = .assumption → sat J a.formula ρ) ∧
             (((t.direction = .universal ∨ t.direction = .forward) ∧
                 (∀ a ∈ left, lFwdPrem a = true → sat J a.formula ρ) ∧
-                ¬ Stable (t.program.substSym (phNu t.phMap J.fc)) t.userGuide.inputs
-                  (restrictTo (ext t.program.preds t.userGuide.inputs)
-                    (renamedInterp (t.specPrivate.filter (· ∈ t.progPrivate)) J.pred)) J.fc) ∨
-             ((t.direction = .universal ∨ t.direction = .backward) ∧
-                Stable (t.program.substSym (phNu t.phMap J.fc)) t.userGuide.inputs
+                ¬ (Stable (t.program.substSym (phNu t.phMap J.fc)) t.userGuide.inputs
                   (restrictTo (ext t.program.preds t.userGuide.inputs)
                     (renamedInterp (t.specPrivate.filter (· ∈ t.progPrivate)) J.pred)) J.fc ∧
+                  OutputsEmpty t t.program (renamedInterp (t.specPrivate.filter (· ∈ t.progPrivate)) J.pred))) ∨
+             ((t.direction = .universal ∨ t.direction = .backward) ∧
+                (Stable (t.program.substSym (phNu t.phMap J.fc)) t.userGuide.inputs
+                  (restrictTo (ext t.program.preds t.userGuide.inputs)
+                    (renamedInterp (t.specPrivate.filter (· ∈ t.progPrivate)) J.pred)) J.fc ∧
+                  OutputsEmpty t t.program (renamedInterp (t.specPrivate.filter (· ∈ t.progPrivate)) J.pred)) ∧
                 ∃ a ∈ left, lBwdConc a = true ∧ ¬ sat J a.formula ρ)))) := by
   obtain ⟨hpre, left, ΓR, po, hroles, hleft, hR, hPO, hps⟩ := externalProblems_outline t fuel ps h
   refine ⟨left, ΓR, po, hleft, hR, fun hnc hvalid J ρ hwit => ?_⟩
